@@ -8,8 +8,14 @@ What a theorem can carry is the data flow from the entropy source to the result.
 namespace DryocVerif.Properties.C11
 open DryocVerif DryocVerif.Model.Entropy DryocVerif.Proofs.EntropyExtra
 
-/-- every entry point consumes exactly its documented number of bytes from the *current*
-position of the stream (no constant, no reuse): the rest is the stream minus that prefix -/
+/-- every entry point leaves the stream minus a prefix of exactly `k.consumed` bytes, and the sizes
+of its requests add up to `k.consumed`.  This fixes `rest` and `draws.sum` ONLY: it says nothing
+about the value returned (that the value is the draw, or an injective image of it — "no constant,
+no reuse" — is `randcomp_is_draw_raw`, `raw_byte`, `fresh_outputs_*`, `calls_fresh`).  Like `run`
+itself it is about the SUCCEEDING call on a stream long enough; see the docstring of
+`Model.Entropy.run` for the three places where the Rust differs (`crypto_box_seal` and
+`crypto_pwhash_str` fail before drawing; the hook's `fill` wraps cyclically where `take`
+truncates). -/
 theorem draws_n (D : Derivers) (k : Kind) (src : Bytes) :
     (run D k src).rest = src.drop k.consumed ∧ (run D k src).draws.sum = k.consumed := by
   cases k <;> simp [run, raw, withDerived, onlyDerived, two, Kind.consumed, List.drop_drop, Nat.add_comm]
@@ -36,6 +42,23 @@ theorem fresh_outputs_keypair (D : Derivers) (s₁ s₂ : Bytes) (h₁ : 32 ≤ 
   intro e
   apply h
   rw [← keypair_secret_is_draw D s₁ h₁, ← keypair_secret_is_draw D s₂ h₂, e]
+
+/-- **no byte position is constant**: every byte position `i < n` of a raw value (key, nonce,
+header, salt) IS the i-th byte drawn — so whatever the source delivers at that position shows up
+at that position of the result -/
+theorem raw_byte (n i : Nat) (src : Bytes) (hi : i < n) : (raw n src).comp[i]? = src[i]? :=
+  Proofs.EntropyExtra.raw_byte n i src hi
+
+/-- non-vacuity witness for `raw_byte` -/
+example : (raw 3 [7, 8, 9, 10]).comp[2]? = some 9 := by decide
+
+/-- a key pair whose drawn secret key is not all-zero has a secret half that is not all-zero -/
+theorem keypair_nonzero (D : Derivers) (src : Bytes) (h : 32 ≤ src.length)
+    (hz : src.take 32 ≠ zeros 32) : ((run D .keypair src).comp).take 32 ≠ zeros 32 := by
+  rw [keypair_secret_is_draw D src h]; exact hz
+
+/-- non-vacuity witness for `keypair_nonzero` -/
+example : 32 ≤ (1 :: zeros 31 : Bytes).length ∧ (1 :: zeros 31 : Bytes).take 32 ≠ zeros 32 := by decide
 
 /-! ### freshness for the derived kinds -/
 
@@ -178,6 +201,30 @@ example : offset [.two 32 8, .raw 24, .saltText] 2 = 64 ∧
     ((runSeq specDerivers [.two 2 1, .raw 2, .raw 1] [1, 2, 3, 4, 5, 6, 7]).map Res.comp)
       = [[1, 2, 3], [4, 5], [6]] := by decide
 
+/-- **across many calls no value repeats, given distinct draws.**  Call the same entry point
+(any kind but `.ephemeral`, for which see above) `n` times in a row on a stream holding at least
+`n · consumed` bytes; the i-th call gets the window `src[i·consumed, (i+1)·consumed)`
+(`calls_disjoint`).  If the windows of calls `i < j` differ, so do the values the two calls
+return.  (Composition of `calls_disjoint` and `fresh_outputs_spec`; that an entropy source does
+deliver distinct windows is the source's property, not the code's.) -/
+theorem calls_fresh (k : Kind) (hk : k ≠ .ephemeral) (n i j : Nat) (src : Bytes) (hi : i < j)
+    (hj : j < n) (hl : n * k.consumed ≤ src.length)
+    (hw : window k.consumed src i ≠ window k.consumed src j) :
+    ∃ ri rj, (runSeq specDerivers (List.replicate n k) src)[i]? = some ri ∧
+      (runSeq specDerivers (List.replicate n k) src)[j]? = some rj ∧ ri.comp ≠ rj.comp :=
+  Proofs.EntropyExtra.calls_fresh k hk n i j src hi hj hl hw
+
+/-- `window c src i` is `src[i·c, (i+1)·c)` -/
+theorem window_def (c : Nat) (src : Bytes) (i : Nat) :
+    window c src i = (src.drop (i * c)).take c := rfl
+
+/-- non-vacuity witness for `calls_fresh`: three 2-byte nonces from `1,…,6`; calls 0 and 2 get the
+windows `1 2` and `5 6`, and return them -/
+example : (3 * (Kind.raw 2).consumed ≤ ([1, 2, 3, 4, 5, 6] : Bytes).length) ∧
+    window (Kind.raw 2).consumed [1, 2, 3, 4, 5, 6] 0 ≠ window (Kind.raw 2).consumed [1, 2, 3, 4, 5, 6] 2 ∧
+    ((runSeq specDerivers (List.replicate 3 (.raw 2)) [1, 2, 3, 4, 5, 6]).map Res.comp)
+      = [[1, 2], [3, 4], [5, 6]] := by decide
+
 /-! ### the table -/
 
 /-- a lookup example.  (NOT a totality statement: see `table_total`.) -/
@@ -206,17 +253,44 @@ theorem table_total : (table.map Prod.fst).Nodup := by decide
 /-- … and every name of the table does have its entry (again about the literal list) -/
 theorem table_lookup_mem : ∀ e ∈ table, table.lookup e.1 = some e.2 := by decide
 
-/-- regression guard for the manual correspondence: the number of entries -/
-theorem table_length : table.length = 60 := by decide
+/-- regression guard for the manual correspondence: the number of entries — the 60 names the
+runner offers plus `heapbytes_gen_locked0`, which it does not (see `heapbytes_gen_locked_draws_nothing`) -/
+theorem table_length : table.length = 61 := by decide
 
-/-- every entry point of the table draws at least one byte.
+/-- … of which exactly one is not a name of the runner; the other 60 are in front of it, unchanged
+(so the driver's answers for them are what they were) -/
+theorem table_runner_part : (table.take 60).length = 60 ∧
+    table.drop 60 = [("heapbytes_gen_locked0", .raw 0)] ∧
+    ∀ e ∈ table.take 60, table.lookup e.1 = some e.2 := by decide
+
+/-- every entry point of the table EXCEPT `heapbytes_gen_locked0` draws at least one byte (for that
+one see `heapbytes_gen_locked_draws_nothing`; with it in the table the unrestricted statement is
+false).
 This is a statement about `Kind.consumed` only.  It does NOT imply that an operation
 "could not return a constant": `Derivers` is uninterpreted, and a constant post-processing
 function (e.g. `b64 := fun _ => []`) makes `.saltText`/`.ephemeral` return a constant
 while still consuming 16/32 bytes.  That the result actually depends on the draw is what
 `fresh_outputs_raw`, `fresh_outputs_derived`, `fresh_outputs_spec` and the `.ephemeral`
 theorems above say, under their stated hypotheses. -/
-theorem consumed_pos : ∀ k ∈ table.map Prod.snd, 0 < k.consumed := by decide
+theorem consumed_pos : ∀ e ∈ table, e.1 ≠ "heapbytes_gen_locked0" → 0 < e.2.consumed := by decide
+
+/-- the unrestricted form fails, because of that one entry -/
+example : ¬ ∀ k ∈ table.map Prod.snd, 0 < k.consumed := by decide
+
+/-- **`HeapBytes::gen_locked()` / `gen_readonly_locked()` draw nothing.**  The blanket impl
+(`impl NewLocked<A> for A`, /repo/src/protected.rs) is `let mut res = Self::new_bytes().mlock()?;
+copy_randombytes(res.as_mut_slice())`; for the resizable `HeapBytes`, `new_bytes()` is the EMPTY
+vector, so the request is for 0 bytes: the stream is left as it is and the result is the same
+empty (zero-length) region on every call, whatever the source delivers.  There is nothing to
+randomise in a zero-length region, so this is NOT a violation of C11 — it is an observation about
+the trait's doc comment ("Returns a new locked byte array, filled with random data"), which is
+misleading for this instance.  (For `HeapByteArray<N>` the same code fills all `N` bytes:
+`locked_gen32`, `lockedro_gen32`.) -/
+theorem heapbytes_gen_locked_draws_nothing :
+    table.lookup "heapbytes_gen_locked0" = some (.raw 0) ∧
+    (∀ (D : Derivers) (src : Bytes), run D (.raw 0) src = ⟨[], [0], src⟩) ∧
+    (∀ (D : Derivers) (s₁ s₂ : Bytes), (run D (.raw 0) s₁).comp = (run D (.raw 0) s₂).comp) :=
+  ⟨by decide, fun _ _ => rfl, fun _ _ _ => rfl⟩
 
 /-- the caveat made concrete: with a constant deriver the salt text does not depend on the
 draw although 16 bytes are consumed -/
